@@ -58,6 +58,10 @@ impl Ntv2Grid {
             // have a start point for working out which subgrid, if any, contains the point
             // Sub grid names are unique, according to the NTv2 spec. Duplicates could make
             // the parent/child relations cyclic, and hence make lookups loop forever
+            // Likewise for a sub grid carrying the name that marks the absence of a parent
+            if name == "NONE" {
+                return Err(Error::Invalid("Sub grid named NONE in NTv2 file".to_string()));
+            }
             if subgrids.insert(name.clone(), grid).is_some() {
                 return Err(Error::Invalid("Duplicate sub grid name in NTv2 file".to_string()));
             }
